@@ -856,6 +856,57 @@ BAD_HRPS = ["TB", "Bcrt", "", "a b", "t\x7fb", "z" * 84, " tb"]
 FINDING_HRP = "F-C06-hrp-unchecked"
 
 
+def sig_roundtrip(ctx, rnd, tapbin, quick):
+    """the --sig round trip on the real tool: take the sighash tap reports for a script-path spend (with and without spend arguments),
+    sign it with an independent BIP340 signer, hand the signature back with --sig: the emitted transaction is the placeholder
+    transaction with the placeholder replaced ([sig, args…, script, control]) and validates (debugger session and specification)"""
+    from . import pyref as PR
+    from . import spendgen as SG
+    from . import runlib as R
+    from . import c03
+    N = PR.N
+    lines, metas = [], []
+    for rep in range(5 if quick else 60):
+        isk = rnd.randrange(1, N); key = PR.xonly(isk)
+        lsk = rnd.randrange(1, N); lpk = PR.xonly(lsk)
+        pre = bytes(rnd.randrange(256) for _ in range(rnd.choice((1, 5, 32))))
+        a1 = bytes(rnd.randrange(1, 256) for _ in range(rnd.choice((1, 2, 33))))
+        variants = [(PR.push(lpk) + b"\xac", []),
+                    (b"\xa8" + PR.push(PR.sha256(pre)) + b"\x88" + PR.push(lpk) + b"\xac", [pre]),
+                    (b"\x6d" + PR.push(lpk) + b"\xac", [a1, pre]),
+                    (b"\x75" * 3 + PR.push(lpk) + b"\xac", [pre, a1, b"\x01"])]
+        for leaf, args in variants:
+            others = rand_scripts(rnd, rnd.choice((0, 1, 3)))
+            i = rnd.randrange(len(others) + 1)
+            scripts = others[:i] + [leaf] + others[i:]
+            c = Case(key, scripts, (i, args), "bcrt", rnd.choice((0, 1)), seed=rnd.randrange(1 << 30))
+            pl = python_line(key, scripts, None)
+            m = re.match(r"key=([0-9a-f]{64}) ", pl or "")
+            if not m: continue
+            exec_case(tapbin, c, bytes.fromhex(m.group(1)))
+            ctx.count("sig-roundtrip", 1)
+            sh = (c.side or {}).get("sighash")
+            if not sh:
+                ctx.violation(c.line, {"stream": "sig-roundtrip", "impl": c.impl, "why": "no sighash reported for a script-path spend"}); continue
+            sig = PR.schnorr_sign(lsk, bytes.fromhex(sh), bytes(rnd.randrange(256) for _ in range(32)))
+            rc, out, err = run_tap(tapbin, ["--sig=" + sig.hex()] + tap_argv(c, c.side["txs"]))
+            impl2, side2 = observe(rc, out, err, True)
+            wit = side2.get("txwitness")
+            ctx.nontrivial.add("sigrt:%d:%d" % (len(args), len(scripts)))
+            if not wit or list(wit[:-2]) != [sig] + args or wit[-2] != leaf:
+                ctx.violation(c.line + " ## --sig=" + sig.hex(), {"stream": "sig-roundtrip", "impl": impl2, "witness": [w.hex() for w in (wit or [])], "expected_prefix": [sig.hex()] + [a.hex() for a in args],
+                                                                  "why": "with --sig the witness is not [signature, spend arguments…, script, control block]"})
+                continue
+            txin, _ = c.side["txs"]; tx = side2["tx"]
+            conv = lambda t: (t[0], [(i_[0], i_[1], i_[2], list(i_[4]), i_[3]) for i_ in t[1]], list(t[2]), t[3])
+            lines.append(SG.spend_line(conv(tx), conv(txin), R.STD)); metas.append(c.line)
+    impl = ctx.harness_sharded(lines); spec = ctx.driver_sharded(lines, "spec")
+    for l, cl, im, sp in zip(lines, metas, impl, spec):
+        vi = c03.verdict_of_impl(im, R.STD)
+        if vi != "VALID" or not sp.startswith("verdict=VALID"):
+            ctx.violation(l, {"stream": "sig-roundtrip", "tap_case": cl, "session": im[-300:], "spec": sp, "why": "the transaction tap emits for a valid signature over the sighash it reported does not validate"})
+
+
 def run(ctx):
     rnd = random.Random(ctx.seed * 1000003 + 6)
     quick = ctx.tier == "quick"
@@ -908,6 +959,7 @@ def run(ctx):
     for l, im, e in zip(bl, bi, exp):
         if im != e:
             ctx.violation(l, {"stream": "branch-order", "impl": im, "expected": e, "why": "TapBranch over two hashes is not the BIP341 branch hash (smaller hash first, compared on all 32 bytes)"})
+    sig_roundtrip(ctx, rnd, tapbin, quick)
     # ---- the same without transactions (address only) in pipe mode: what a user funding the address sees
     notx = []
     for c in cases:
